@@ -366,6 +366,10 @@ def _str(I, a, k):
         return NotImplemented
     if len(a) == 1 and getattr(a[0], "_pyvc_ok", False) and hasattr(a[0], "key"):
         return a[0].key
+    if I is not None and len(a) == 1 and not k and isinstance(a[0], SV):
+        return SymStr([a[0]])          # str(v): the default text of the value (A-STR-FREE: kept as a constructor term; an integer term stands for its decimal digits)
+    if len(a) == 1 and not k and isinstance(a[0], SymStr):
+        return a[0]
     return SymStr(["<sym>"])
 
 
